@@ -1789,8 +1789,9 @@ static void compile_expr(CG *cg, ASTNode *node) {
          * (cond (c1 v1) (c2 v2) ... (else ve)) */
         int clause_count = node->as.cond_expr.clause_count;
         /* We need end-patches for each clause's JMP to end */
-        uint32_t end_patches[64];
-        uint32_t end_instrs[64];
+        int end_cap = clause_count > 0 ? clause_count : 1;
+        uint32_t end_patches[end_cap];
+        uint32_t end_instrs[end_cap];
         int end_count = 0;
 
         for (int i = 0; i < clause_count; i++) {
@@ -1804,7 +1805,7 @@ static void compile_expr(CG *cg, ASTNode *node) {
             /* Jump to end */
             uint32_t je_instr = cg->code_size;
             uint32_t je_off = emit_op(cg, OP_JMP, (int32_t)0);
-            if (end_count < 64) {
+            if (end_count < end_cap) {
                 end_patches[end_count] = je_off + 1;
                 end_instrs[end_count] = je_instr;
                 end_count++;
@@ -2011,8 +2012,9 @@ static void compile_expr(CG *cg, ASTNode *node) {
         compile_expr(cg, node->as.match_expr.expr);
 
         int arm_count = node->as.match_expr.arm_count;
-        uint32_t end_patches[64];
-        uint32_t end_instrs[64];
+        int end_cap = arm_count > 0 ? arm_count : 1;
+        uint32_t end_patches[end_cap];
+        uint32_t end_instrs[end_cap];
         int end_count = 0;
 
         /* Find union definition for variant name → index mapping.
@@ -2080,7 +2082,7 @@ static void compile_expr(CG *cg, ASTNode *node) {
             local_scope_end(cg, arm_scope_mark);
 
             /* Jump to end */
-            if (end_count < 64) {
+            if (end_count < end_cap) {
                 end_instrs[end_count] = cg->code_size;
                 uint32_t je_off = emit_op(cg, OP_JMP, (int32_t)0);
                 end_patches[end_count] = je_off + 1;
